@@ -28,7 +28,7 @@ Wins0 == {<<-1, -1, "">>, <<1, 1, "">>, <<2, 0, "comma">>}
 \* "window" family: rows identified by position value
 WRows  == {Row([k |-> NumV(i)]) : i \in 0..3}
 Huge == 2000000000              \* stands for the largest LIMIT the parser accepts (rendered as 9223372036854775807)
-Limits == {0, 1, 2, 3, 5, Huge}
+Limits == {0, 1, 2, 3, 5, Huge, Huge + 1}     \* Huge + 1 is rendered as 18446744073709551615, MySQL's idiom for "all the rest"
 Offs   == {-1, 0, 1, 2, 4, 6}
 WinsAll == {<<-1, -1, "">>} \cup {<<n, m, "">> : n \in Limits, m \in Offs}
                             \cup {<<n, m, "comma">> : n \in Limits, m \in Offs \ {-1}}
@@ -43,6 +43,15 @@ Init ==
             cs = [fam |-> "alias", q |-> MkQ(AliasSel, ks, w), doc |-> Doc1("t", tbl)]
        \/ \E tbl \in SeqsUpTo(WRows, MaxWin) : \E ks \in {<<Key("k", TRUE)>>, <<Key("k", FALSE)>>} : \E w \in {<<1, -1, "">>, <<1, 1, "">>, <<2, 0, "comma">>, <<-1, -1, "">>} :
             cs = [fam |-> "distinct", q |-> [MkQ(<<Item(Col("k"), "")>>, ks, w) EXCEPT !.distinct = TRUE], doc |-> Doc1("t", tbl)]
+       \* a select list made of aggregates only yields one row: the window applies to that one-row sequence
+       \/ \E tbl \in SeqsUpTo(WRows, MaxWin) : \E w \in {<<-1, -1, "">>, <<1, -1, "">>, <<1, 1, "">>, <<0, -1, "">>, <<2, 0, "comma">>, <<1, 1, "comma">>} :
+            cs = [fam |-> "window", q |-> MkQ(<<Item(Agg("count", <<>>), "c"), Item(Agg("sum", <<"k">>), "s")>>, <<>>, w), doc |-> Doc1("t", tbl)]
+       \* ORDER BY behind the last branch of a UNION sorts the combined result; the window comes after it
+       \/ \E tbl \in SeqsUpTo(WRows, MaxWin) : \E ks \in {<<Key("k", TRUE)>>, <<Key("k", FALSE)>>} : \E w \in {<<-1, -1, "">>, <<2, -1, "">>, <<1, 1, "">>} : \E all \in BOOLEAN :
+            \* (UNION ALL of t with itself leaves ties - equal rows - so every order satisfying the keys is the same sequence)
+            cs = [fam |-> "union", doc |-> Doc1("t", tbl),
+                  q |-> [k |-> "union", l |-> [BaseQ EXCEPT !.sel = <<Item(Col("k"), "")>>], r |-> [BaseQ EXCEPT !.sel = <<Item(Col("k"), "")>>, !.where = CmpE(">", Col("k"), LN(0))],
+                         all |-> all, order |-> ks, limit |-> w[1], offset |-> w[2]]]
        \/ \E tbl \in SeqsUpTo(WRows, MaxWin) : \E ks \in WKeys : \E w \in WinsAll :
             cs = [fam |-> "window", q |-> MkQ(<<Star>>, ks, w), doc |-> Doc1("t", tbl)]
     /\ EngineInit
@@ -91,8 +100,14 @@ Positions(s, m, n) ==
         cnt == IF n < 0 THEN Max2(0, Len(s) - off) ELSE Max2(0, Min2(n, Len(s) - off))
     IN  [i \in 1..cnt |-> s[off + i]]
 ExactWindow ==
-    Ok => /\ res.e = Positions(Sorted, cs.q.offset, cs.q.limit)
+    /\ (Ok /\ cs.q.k = "select") =>
+          /\ res.e = Positions(Sorted, cs.q.offset, cs.q.limit)
           /\ res.e = WindowModel(Sorted, cs.q.offset, cs.q.limit)
+    \* a union: the combined (de-duplicated) rows, sorted, then the positions
+    /\ (Ok /\ cs.q.k = "union") =>
+          LET both == RunQ([x \in DOMAIN cs.q \ {"order"} |-> IF x \in {"limit", "offset"} THEN -1 ELSE cs.q[x]], cs.doc).e
+          IN  /\ OrderOK(both, RunQ([cs.q EXCEPT !.limit = -1, !.offset = -1], cs.doc).e, cs.q.order)
+              /\ res.e = Positions(RunQ([cs.q EXCEPT !.limit = -1, !.offset = -1], cs.doc).e, cs.q.offset, cs.q.limit)
 
 Export ==
     Done => PrintT(ToJson([q |-> cs.q, doc |-> cs.doc, fam |-> cs.fam, hist |-> hist, res |-> res,
